@@ -186,6 +186,53 @@ mod __verif_c05 {
         }
     }
 
+    fn utf8_case(len_min: usize, len_v: usize, len_max: usize, len_lit: usize) {
+        use parquet::data_type::ByteArray;
+        // ASCII letters, concrete lengths, symbolic bytes
+        let b: [u8; 8] = std::array::from_fn(|_| kani::any());
+        let mut k = 0;
+        while k < 8 {
+            kani::assume(b[k] >= b'a' && b[k] <= b'd');
+            k += 1;
+        }
+        let (smin, sv, smax, slit) = (&b[0..len_min], &b[2..2 + len_v], &b[4..4 + len_max], &b[6..6 + len_lit]);
+        // the row group holds the value: min <= v <= max bytewise (parquet-rs writer contract for BYTE_ARRAY strings)
+        kani::assume(smin <= sv && sv <= smax);
+        let op = any_cmp_op();
+        let st = ParquetStatistics::byte_array(Some(ByteArray::from(smin.to_vec())), Some(ByteArray::from(smax.to_vec())), None, kani::any(), false);
+        let lit = unsafe { std::str::from_utf8_unchecked(slit) };
+        let might = check_utf8_stats(&st, op, lit);
+        kani::cover!(!might);
+        kani::cover!(might);
+        let ord = sv.cmp(slit);
+        let row = match op {
+            BinaryOp::Eq => ord == std::cmp::Ordering::Equal,
+            BinaryOp::NotEq => ord != std::cmp::Ordering::Equal,
+            BinaryOp::Lt => ord == std::cmp::Ordering::Less,
+            BinaryOp::LtEq => ord != std::cmp::Ordering::Greater,
+            BinaryOp::Gt => ord == std::cmp::Ordering::Greater,
+            _ => ord != std::cmp::Ordering::Less,
+        };
+        if row {
+            assert!(might, "C05.skip_sound_utf8");
+        }
+        std::mem::forget(st);
+    }
+
+    // @harness tiers=experimental timeout=2400
+    // @encodes storage::row_group_pruning::check_utf8_stats, storage::row_group_pruning::eval_range_str
+    // @bounds VARCHAR statistics vs VARCHAR literal: strings over {a,b,c,d}; length patterns (min, value, max, literal) = (1,1,1,1), (1,2,2,1), (2,1,2,2), (1,1,2,2) iterated concretely, all bytes symbolic; 6 operators
+    // @oracle strings compare bytewise (Arrow Utf8 comparison): row(v op lit) => not skipped
+    // @out longer strings, non-ASCII, truncated statistics
+    #[kani::proof]
+    #[kani::unwind(10)]
+    fn skip_sound_utf8_stats_short_strings() {
+        utf8_case(1, 1, 1, 1);
+        utf8_case(1, 2, 2, 1);
+        utf8_case(2, 1, 2, 2);
+        utf8_case(1, 1, 2, 2);
+    }
+
     // @harness tiers=quick,thorough
     // @encodes storage::row_group_pruning::flip_op
     // @bounds all 6 comparison operators, all i64 pairs
